@@ -6,6 +6,7 @@ package canary
 import (
 	"sync"
 	"testing"
+	"unsafe"
 
 	"github.com/AdguardTeam/golibs/syncutil"
 
@@ -36,8 +37,25 @@ const (
 	modeNoneSeq   = 3 // unsynchronised, tasks run strictly one after the other
 	modePool      = 4 // object handed over through the simulated pool
 	modePoolAfter = 5 // object used after it was put into the pool
-	numModes      = 6
+	modeSimMutex  = 6 // counter under a simulated mutex, yields inside the critical section
+	modeSimSkip   = 7 // the same, but task 0 does not take the simulated mutex
+	modeSimRW     = 8 // writers under Lock, readers under RLock of a simulated RWMutex
+	modeSimRWBad  = 9 // a reader writes under RLock while another reader reads
+	numModes      = 10
 )
+
+// simLock has the layout of the replacement types that tools/autoyield adds to
+// a package (eight bytes of simulator state first).
+type simLock struct {
+	st   [8]byte
+	real sync.RWMutex
+}
+
+func (m *simLock) op(op int) bool {
+	_, ok := kernel.SimSync(op, unsafe.Pointer(m))
+
+	return ok
+}
 
 func run(rc *kernel.RunCtx) {
 	tp := rc.Tape
@@ -50,6 +68,8 @@ func run(rc *kernel.RunCtx) {
 	rc.Stats.Probe("mode-" + kernel.Itoa(mode))
 
 	var mu sync.Mutex
+	sl := &simLock{}
+	shadow := 0
 	counter := 0
 	ch := make(chan *box, 1)
 	pool := syncutil.NewPool(func() *box { return &box{} })
@@ -96,6 +116,38 @@ func run(rc *kernel.RunCtx) {
 					b := <-ch
 					b.n++
 				}
+			case modeSimMutex, modeSimSkip:
+				for i := 0; i < 2; i++ {
+					skip := mode == modeSimSkip && ti == 0
+					if !skip {
+						sl.op(kernel.OpLock)
+					}
+					counter++
+					k.Yield("inside")
+					counter++
+					if !skip {
+						sl.op(kernel.OpUnlock)
+					}
+				}
+				k.Tell("done", func() { accessed++ })
+			case modeSimRW, modeSimRWBad:
+				if ti == 0 {
+					sl.op(kernel.OpLock)
+					counter++
+					k.Yield("writing")
+					sl.op(kernel.OpUnlock)
+				} else {
+					sl.op(kernel.OpRLock)
+					_ = counter
+					k.Yield("reading")
+					if mode == modeSimRWBad && ti == 1 {
+						shadow++ // a write under a read lock, racing with the other readers' reads
+					} else {
+						_ = shadow
+					}
+					sl.op(kernel.OpRUnlock)
+				}
+				k.Tell("done", func() { accessed++ })
 			case modePool, modePoolAfter:
 				k.Yield("a")
 				b := pool.Get()
@@ -119,5 +171,8 @@ func run(rc *kernel.RunCtx) {
 	if accessed < 2 && (mode == modeNone || mode == modeNoneSeq) {
 		rc.Sig = 99
 	}
-	_ = counter
+	if mode == modeSimRWBad && nTasks < 3 {
+		rc.Sig = 99 // one reader only: nobody to race with
+	}
+	_, _ = counter, shadow
 }
